@@ -1,5 +1,6 @@
 import CMacVerif.Lemmas.Morton
-import CMacVerif.Lemmas.Shells
+import CMacVerif.Lemmas.ShellsRange
+import CMacVerif.Lemmas.Buckets
 import CMacVerif.Lemmas.AMRGrid
 import CMacVerif.Lemmas.CartesianRay
 /-!
@@ -95,22 +96,8 @@ theorem max_range_is_last (ax ay az s : Int)
     (hx : 0 ≤ ax ∧ ax < s) (hy : 0 ≤ ay ∧ ay < s) (hz : 0 ≤ az ∧ az < s) :
     Inside ax ay az s s s (setMaxRange ax ay az s s s) ∧
     ∃ N : Nat, iter N = setMaxRange ax ay az s s s ∧
-      ∀ n : Nat, Inside ax ay az s s s (iter n) → n ≤ N := by
-  have e := setMaxRange_eq ax ay az s
-  have h1 := isMax_imax ax (s - ax - 1)
-  have h2 := isMax_imax ay (s - ay - 1)
-  have h3 := isMax_imax az (s - az - 1)
-  have h4 := isMax_imax (imax ax (s - ax - 1)) (imax ay (s - ay - 1))
-  have h5 := isMax_imax (imax (imax ax (s - ax - 1)) (imax ay (s - ay - 1))) (imax az (s - az - 1))
-  have hin := choice_inside ax ay az s _ _ _ _ _ hx hy hz h1 h2 h3 h4 h5
-  have hg := choice_good ax ay az s _ _ _ _ _ hx hy hz h1 h2 h3 h4 h5
-  rw [← e] at hin hg
-  obtain ⟨N, hN⟩ := iter_surjective _ hg
-  refine ⟨hin, N, hN, fun n hn => ?_⟩
-  by_contra hlt
-  have := iter_strictMono (Nat.lt_of_not_le hlt)
-  rw [hN, e] at this
-  exact choice_last ax ay az s _ _ _ _ _ hx hy hz h1 h2 h3 h4 h5 (iter n) (good_iter n) hn this
+      ∀ n : Nat, Inside ax ay az s s s (iter n) → n ≤ N :=
+  max_range_is_last_aux ax ay az s hx hy hz
 
 /-- the statement needs the cubic grid: for a 5×1×3 grid and anchor (2,0,2) the C++ rule returns
 (2,0,-2), but the block (2,0,0) lies inside the grid and comes later in the traversal -/
@@ -132,52 +119,8 @@ theorem increase_range_next (ax ay az s : Int)
       (∀ j, k < j → j < k' → ¬ Inside ax ay az s s s (iter j)) ∧
       (iter k').level ≤ (iter k).level + 1 ∧
       ∀ fuel, k' - k ≤ fuel →
-        increaseRange ax ay az s s s (setMaxRange ax ay az s s s) fuel (iter k) = .next (iter k') := by
-  classical
-  obtain ⟨hmin, N, hN, hlast⟩ := max_range_is_last ax ay az s hx hy hz
-  have hkN : k < N := by
-    rcases Nat.lt_or_ge k N with h | h
-    · exact h
-    · have : k = N := le_antisymm (hlast k hk) h
-      subst this; rw [hN] at hne; exact absurd ⟨rfl, rfl, rfl⟩ hne
-  have hex : ∃ d, Inside ax ay az s s s (iter (k + 1 + d)) :=
-    ⟨N - (k + 1), by rw [show k + 1 + (N - (k + 1)) = N by omega, hN]; exact hmin⟩
-  let d := Nat.find hex
-  have hd : Inside ax ay az s s s (iter (k + 1 + d)) := Nat.find_spec hex
-  have hout : ∀ j, k + 1 ≤ j → j < k + 1 + d → ¬ Inside ax ay az s s s (iter j) := by
-    intro j h1 h2 hj
-    have := Nat.find_min hex (m := j - (k + 1)) (by omega)
-    rw [show k + 1 + (j - (k + 1)) = j by omega] at this
-    exact this hj
-  refine ⟨k + 1 + d, by omega, hd, fun j h1 h2 => hout j (by omega) h2, ?_, ?_⟩
-  · -- no level is skipped: every level up to the last contains a block inside the grid
-    by_contra hcon
-    have e := setMaxRange_eq ax ay az s
-    have h1 := isMax_imax ax (s - ax - 1)
-    have h2 := isMax_imax ay (s - ay - 1)
-    have h3 := isMax_imax az (s - az - 1)
-    have h4 := isMax_imax (imax ax (s - ax - 1)) (imax ay (s - ay - 1))
-    have h5 := isMax_imax (imax (imax ax (s - ax - 1)) (imax ay (s - ay - 1))) (imax az (s - az - 1))
-    have hle := inside_level_le ax ay az s _ _ _ _ _ hx hy hz h1 h2 h3 h4 h5 _ (good_iter (k + 1 + d)) hd
-    have h0 : 0 ≤ (iter k).level := by
-      have := good_iter k; unfold Good at this; rw [← this]; exact maxNorm_nonneg _ _ _
-    obtain ⟨c, hcg, hcin, hcl⟩ := exists_inside_level ax ay az s _ _ _ _ _ hx hy hz h1 h2 h3 h4 h5
-      ((iter k).level + 1) (by omega) (by omega)
-    obtain ⟨j, hj⟩ := iter_surjective c hcg
-    have hkj : k < j := by
-      by_contra hh
-      have := level_mono (Nat.le_of_not_lt hh); rw [hj, hcl] at this; omega
-    have hjk : j < k + 1 + d := by
-      by_contra hh
-      have := level_mono (Nat.le_of_not_lt hh); rw [hj, hcl] at this; omega
-    exact hout j (by omega) hjk (hj ▸ hcin)
-  · intro fuel hf
-    unfold increaseRange
-    rw [if_neg hne]
-    have := skipOutside_reaches ax ay az s s s d (k + 1) fuel hout hd (by omega)
-    show (match skipOutside ax ay az s s s fuel (increaseIndices (iter k)) with
-      | some s' => RangeStep.next s' | none => RangeStep.fuelOut) = _
-    rw [show increaseIndices (iter k) = iter (k + 1) from rfl, this]
+        increaseRange ax ay az s s s (setMaxRange ax ay az s s s) fuel (iter k) = .next (iter k') :=
+  increase_range_next_aux ax ay az s hx hy hz k hne hk
 
 /-- on the last block `increase_range` returns false -/
 theorem increase_range_end (ax ay az s : Int) (fuel : Nat) :
@@ -484,5 +427,68 @@ example : PosBox (⟨0, 0, 0, 1, 1, 1⟩ : Box3 ℝ) ∧ InBox (⟨0, 0, 0, 1, 1
   unfold PosBox InBox InRange; norm_num
 
 end Cartesian
+
+/-! ## Bucket-grid nearest neighbour (`PointLocations::get_closest_neighbour`) -/
+namespace Buckets
+open CMacVerif.GridNum CMacVerif.Shells
+
+/-- `get_closest_neighbour` returns the brute-force nearest neighbour, in exact arithmetic, for
+every bucket grid, point set and query.  Proved from `shells_exactly_once` /
+`max_range_is_last` / `increase_range_next` (every bucket inside the grid is reached, level by
+level) under the hypotheses named here:
+* `hanchor`: the anchor cell computed for the query lies inside the (cubic) grid;
+* `hcover` (the covered-radius bound the code uses to stop): a point stored in a bucket whose
+  offset from the anchor cell has max-norm ≥ L is at squared distance ≥ `get_max_radius2()` as
+  computed after the widenings for the levels `< L`;
+* `hfuelR` / `he`: the fuel of the two loops of the model did not run out.
+`_partial`: `hcover` is assumed, not derived from the bucket assignment of the constructor. -/
+theorem nearest_is_bruteforce_partial (g : BGrid ℝ) (p : V3 ℝ) (fuelR fuel : Nat)
+    (hanchor : (0 ≤ anchorIndex p.x g.anchor.x g.cs.x ∧ anchorIndex p.x g.anchor.x g.cs.x < g.n) ∧
+      (0 ≤ anchorIndex p.y g.anchor.y g.cs.y ∧ anchorIndex p.y g.anchor.y g.cs.y < g.n) ∧
+      (0 ≤ anchorIndex p.z g.anchor.z g.cs.z ∧ anchorIndex p.z g.anchor.z g.cs.z < g.n))
+    (hfuelR : ∀ k, Inside (anchorIndex p.x g.anchor.x g.cs.x) (anchorIndex p.y g.anchor.y g.cs.y)
+      (anchorIndex p.z g.anchor.z g.cs.z) g.n g.n g.n (iter k) → k ≤ fuelR)
+    (hcover : ∀ (L k q : Nat), 1 ≤ L →
+      Inside (anchorIndex p.x g.anchor.x g.cs.x) (anchorIndex p.y g.anchor.y g.cs.y)
+        (anchorIndex p.z g.anchor.z g.cs.z) g.n g.n g.n (iter k) → (L : Int) ≤ (iter k).level →
+      q ∈ bucketAt g (anchorIndex p.x g.anchor.x g.cs.x) (anchorIndex p.y g.anchor.y g.cs.y)
+        (anchorIndex p.z g.anchor.z g.cs.z) (iter k) →
+      maxRadius2 (boundsAt g p (anchorIndex p.x g.anchor.x g.cs.x) (anchorIndex p.y g.anchor.y g.cs.y)
+        (anchorIndex p.z g.anchor.z g.cs.z) L) ≤ d2 g p q)
+    (he : (closest g p fuelR fuel).2 ≠ .fuel) :
+    let r := (closest g p fuelR fuel).1.best
+    let pts := AllPts g (anchorIndex p.x g.anchor.x g.cs.x) (anchorIndex p.y g.anchor.y g.cs.y)
+      (anchorIndex p.z g.anchor.z g.cs.z)
+    -- no point at all, or the returned index is a stored point at minimal distance
+    (r.r2 < 0 ∧ ∀ q, ¬ pts q) ∨
+    (pts r.idx ∧ r.r2 = dist2 (g.pos r.idx) p ∧ ∀ q, pts q → dist2 (g.pos r.idx) p ≤ dist2 (g.pos q) p) := by
+  intro r pts
+  set ax := anchorIndex p.x g.anchor.x g.cs.x
+  set ay := anchorIndex p.y g.anchor.y g.cs.y
+  set az := anchorIndex p.z g.anchor.z g.cs.z
+  have hin0 : Inside ax ay az g.n g.n g.n (iter 0) := by
+    unfold Inside; simp only [iter, start]; omega
+  have hb0 : BestOf g p (Visited g ax ay az 0) (scan g p (g.bucket ax ay az) ⟨-1.0, 0⟩) := by
+    have h0 : BestOf g p (fun _ => False) (⟨-1.0, 0⟩ : Best ℝ) := Or.inl ⟨by norm_num, fun _ h => h⟩
+    refine BestOf_congr g p _ _ _ (fun q => ?_) (scan_best g p (g.bucket ax ay az) _ _ h0)
+    constructor
+    · rintro (h | h)
+      · exact absurd h id
+      · exact ⟨0, le_refl _, hin0, by simpa [bucketAt, iter, start] using h⟩
+    · rintro ⟨k, hk, _, hq⟩
+      have : k = 0 := by omega
+      subst this
+      exact Or.inr (by simpa [bucketAt, iter, start] using hq)
+  have := searchLoop_correct g p ax ay az hanchor.1 hanchor.2.1 hanchor.2.2 fuelR hfuelR hcover fuel 0
+    ⟨start, initBounds g ax ay az p, scan g p (g.bucket ax ay az) ⟨-1.0, 0⟩, 1⟩ rfl hin0 rfl hb0
+    (closest g p fuelR fuel).1 (closest g p fuelR fuel).2 rfl he
+  rcases this with ⟨h1, h2⟩ | ⟨_, h2, h3, h4⟩
+  · exact Or.inl ⟨h1, h2⟩
+  · refine Or.inr ⟨h2, h3, fun q hq => ?_⟩
+    have := h4 q hq
+    rw [h3] at this
+    exact this
+
+end Buckets
 
 end CMacVerif
